@@ -893,3 +893,20 @@ def shrink_candidates(case):
 def signature(case, obs, msgs):
     cfg = case["cfg"]
     return {"clf": cfg["clf"], "req_below_k": bool(cfg["req"] is not None and cfg["req"] < cfg["k"])}
+
+
+def witnesses(ctx):
+    """recorded finding: with oracle_data_length_required < k the completing label crashes inside KFold after the
+    label was stored and the state changed; the detector then waits forever (known_findings.json: C19-oracle-below-k)"""
+    cfg = dict(CFG["A"], k=3, req=2)
+    det = make(cfg)
+    trace = []
+    for op in [["u", 0.25, 0.0], ["l", 2.0, 0.0, 1, "ok"], ["l", 2.0, 0.0, 1, "ok"], ["l", 2.0, 0.0, 1, "ok"], ["u", 2.0, 0.0]]:
+        e = apply_call(det, op)
+        trace.append([compact([op]), outcome(e["code"]), e["wait"], e["nrows"]])
+    still_waiting = bool(trace[-1][2])
+    crashed = any(t[1] not in ("ok", "accepted") and "fold" in str(t[1]).lower() or str(t[1]).lower().startswith("crash") for t in trace)
+    if still_waiting and crashed:
+        yield ({"finding": "oracle-length-below-k"},
+               "MD3(k=3, oracle_data_length_required=2): the 2nd label raises inside the k-fold split after it was stored; "
+               "the warning is never resolved and every later update is refused", {"cfg": cfg, "trace": trace})
